@@ -234,7 +234,7 @@ check("C12", "no schedule can hang the registry", "exploration",
       "Trusted: the check-time rewrite of sync.Mutex/sync.WaitGroup in olareg.go, internal/store, internal/cache to recording wrappers; liveness is approximated by bounded completion (20 s, 100x normal latency) and a "
       "stall is only called when the monitor itself kept ticking; hangs needing a specific interleaving of more than two lock sites may be missed.",
       "DESIGN.md §3 C12",
-      [R("^TestC12$", 400, 12000, shards=(8, 16), timeout=(900, 3300)), R("^TestC12Shutdown$", 48, 1200, shards=(4, 8), timeout=(900, 3300))], variant="vsync")
+      [R("^TestC12$", 3000, 40000, shards=(8, 16), timeout=(900, 3300)), R("^TestC12Shutdown$", 96, 1600, shards=(4, 8), timeout=(900, 3300))], variant="vsync")
 
 check("C19", "every setting has its documented effect", "exploration",
       "rapid over Config values (defaults), over flag vectors of the built binary with a probe battery vs a behaviour table, over request/address/delay sequences in a synctest bubble vs the accounting-window model, and over signal moments",
@@ -818,11 +818,24 @@ def cmd_seeded(dirs):
             rows.append((os.path.basename(d), "patch does not apply"))
             continue
         try:
-            for pid in meta.get("check_with", [meta["property"]]):
+            checks = meta.get("check_with", [meta["property"]])
+            if os.environ.get("VERIF_SEEDED_CHECKS"):
+                checks = os.environ["VERIF_SEEDED_CHECKS"].split(",")
+            for pid in checks:
                 t0 = time.time()
                 env = dict(os.environ)
                 r = sh([sys.executable, os.path.join(VERIF, "verif.py"), "check", pid, meta.get("tier", "quick")], stdout=subprocess.PIPE, stderr=subprocess.PIPE, text=True, env=env)
                 viol = [l for l in r.stdout.splitlines() if l.startswith("VIOLATION")]
+                # replays produced against a patched tree belong to the seeded change, not to replays/
+                os.makedirs(os.path.join(d, "caught"), exist_ok=True)
+                for l in viol:
+                    rp = l.split("replay=", 1)[-1].strip()
+                    if os.path.exists(rp) and rp.startswith(os.path.join(VERIF, "replays")):
+                        shutil.move(rp, os.path.join(d, "caught", os.path.basename(rp)))
+                res_p = os.path.join(d, "result.json")
+                res = json.load(open(res_p)) if os.path.exists(res_p) else {}
+                res[pid] = {"tier": meta.get("tier", "quick"), "exit": r.returncode, "violations": [l.split("replay=")[0].strip() + " replay=seeded/%s/caught/%s" % (os.path.basename(d), os.path.basename(l.split("replay=", 1)[-1].strip())) for l in viol]}
+                json.dump(res, open(res_p, "w"), indent=1, sort_keys=True)
                 rows.append((os.path.basename(d), pid, "rc=%d" % r.returncode, "%.0fs" % (time.time() - t0), viol[:1]))
         finally:
             sh(["git", "-C", REPO, "checkout", "--", "."])
